@@ -231,7 +231,19 @@ func valueFacts(info *types.Info, root ast.Node) *FactSpec {
 				return nil
 			}
 			st, idx, rhs := findDefine(info, root, obj)
-			if st == nil || idx != 1 || len(rhs) != 1 || countAssigns(info, root, obj) > 0 {
+			if st == nil || countAssigns(info, root, obj) > 0 {
+				return nil
+			}
+			// isKnown, isNull := in.IsKnown(), in.IsNull(): a boolean local bound once to a predicate
+			if as, ok := st.(*ast.AssignStmt); ok && len(as.Lhs) == len(rhs) && idx < len(rhs) {
+				if c, ok := ast.Unparen(rhs[idx]).(*ast.CallExpr); ok {
+					if _, key, _ := methodOn(c); strings.HasPrefix(key, "cty.Value.Is") || strings.HasPrefix(key, "cty.Type.Is") {
+						return atom(c, truth)
+					}
+				}
+				return nil
+			}
+			if idx != 1 || len(rhs) != 1 {
 				return nil
 			}
 			if ta, ok := ast.Unparen(rhs[0]).(*ast.TypeAssertExpr); ok && ta.Type != nil {
